@@ -49,7 +49,8 @@ func ccJoin(ds []string) string { return strings.Join(ds, ", ") }
 type storedSpec struct {
 	status         int
 	maxAge         string // "" absent
-	expiresOff     string // "", "invalid", or seconds offset from Date as string
+	expiresOff     string // "", "invalid", "empty", "zone", or seconds offset from Date as string
+	zone           string // zone abbreviation of an Expires that is not an HTTP-date
 	lmOff          string // "", or seconds before Date (may be negative = after)
 	age            string
 	etag           bool
@@ -83,7 +84,8 @@ func (g *G) genStored(focus string) storedSpec {
 		s.maxAge = strconv.FormatInt(g.lifetime(), 10)
 	}
 	if g.chance(0.35) {
-		s.expiresOff = pick(g, "invalid", "0", "-10", "10", "100", "3600", "0invalid", "empty", "empty")
+		s.expiresOff = pick(g, "invalid", "0", "-10", "10", "100", "3600", "0invalid", "empty", "empty", "zone")
+		s.zone = pick(g, "CEST", "JST", "EST", "XYZ", "GMT+1")
 		if s.expiresOff == "0invalid" {
 			s.expiresOff = "invalid"
 		}
@@ -184,6 +186,10 @@ func (s storedSpec) reply(atNs int64, body string) Reply {
 		h = append(h, [2]string{"Expires", "0"})
 	case "empty":
 		h = append(h, [2]string{"Expires", ""})
+	case "zone":
+		// not an HTTP-date: the obsolete rfc850 layout with a zone abbreviation that is not GMT (a time library
+		// reads it as SOME instant, which one depends on the zone of the process) - an invalid Expires: already expired
+		h = append(h, [2]string{"Expires", time.Unix(dateSec+7200, 0).UTC().Format("Monday, 02-Jan-06 15:04:05") + " " + s.zone})
 	default:
 		off, _ := strconv.ParseInt(s.expiresOff, 10, 64)
 		h = append(h, [2]string{"Expires", httpDate(dateSec + off)})
@@ -214,7 +220,7 @@ func (s storedSpec) aimLifetime() int64 {
 		}
 		return max(v, 0)
 	}
-	if s.expiresOff != "" && s.expiresOff != "invalid" {
+	if s.expiresOff != "" && s.expiresOff != "invalid" && s.expiresOff != "zone" {
 		v, _ := strconv.ParseInt(s.expiresOff, 10, 64)
 		return max(v, 0)
 	}
@@ -358,7 +364,9 @@ func (g *G) genGrid(id string) *History {
 // (RFC 9110 §5.3: the lines of a field are one comma-separated list); a more aggressive request
 // puts the directive that matters last
 func (g *G) ccLines(cc []string) Hdr {
-	if g.chance(0.04) {
+	if g.chance(0.04) && !strings.ContainsAny(ccJoin(cc), "\"\\") {
+		// (only in front of directives without quoted arguments: how a second quote or a backslash reads after
+		// an unterminated one is anybody's guess, and the checks have no opinion about it)
 		// a malformed field line (a quoted-string that never ends) in front of well-formed ones: a quoted-string
 		// cannot extend over field lines, so the later lines say what they say
 		bad := pick(g, `x="unterminated`, `b"`, `x="a\`)
